@@ -237,6 +237,14 @@ def tie_fit_emit(ctx, info, val, doc, f, t, sl, reqs, metas):
         replay["step"] = step.to_json()
         prob = open_payload_problem(val, s_) if slice_wf(s_) else "not well-formed"
         replay["payload"] = prob
+        if isinstance(step, ReplaceAroundStep):
+            # fit_around_shape / fit_around_gap_valid (Props/C11.lean): every replace-around answer starts at `from`, its gap is
+            # [to, to.end()) — a closed slice of valid nodes on a valid document —, the structure flag is not set
+            rt_ = doc.resolve(t)
+            gap_ = doc.slice(step.gap_from, step.gap_to)
+            replay["aroundShape"] = (not step.structure and step.from_ == f and step.gap_from == t and step.gap_to == rt_.end()
+                                     and gap_.open_start == 0 and gap_.open_end == 0)
+            replay["aroundGap"] = open_payload_problem(val, gap_)
         if isinstance(step, ReplaceAroundStep) and not sl.content.child_count:
             # delete_around_is_move / delete_emits_payloadValid (Props/C11.lean): a deletion's replace-around answer has
             # insert = 0, gap [to, to.end()), no structure flag; the slice with the gap content in place is a valid payload
@@ -328,6 +336,12 @@ def check_fit_emit(ctx, replay, out):
                 ctx.count("fit emit: hypotheses of fit_emits_valid_payload_of_inv hold (%s slice)" % cls)
                 if replay.get("payload") is not None:
                     ctx.mismatch("fitEmit:valid-invariant-but-payload-invalid", replay, None, replay.get("payload"))
+        if "aroundShape" in replay:
+            ctx.count("fit emit: replace-around answer, shape as fit_around_shape: %s" % replay["aroundShape"])
+            if replay["aroundShape"] is not True:
+                ctx.mismatch("fitEmit:around-shape (fit_around_shape)", replay, True, replay["aroundShape"])
+            if rel.get("hyp") and replay.get("aroundGap") is not None:
+                ctx.mismatch("fitEmit:around-gap-invalid (fit_around_gap_valid)", replay, None, replay.get("aroundGap"))
         if rel.get("validRun") is not None:
             ctx.count("fit emit: validity invariant after every iteration (%s slice): %s" % (cls, rel["validRun"]))
         if rel.get("inStep") is not None:
